@@ -496,6 +496,12 @@ func (s *sys) exec(ev []uint64) (obs []uint64, ok bool) {
 			cb := func(v uint64) error {
 				d.val = v
 				d.cbN++
+				if d.cbN%2 == 0 {
+					// user code run outside the lock may use the same container
+					s.c.EnterNoPark()
+					_ = s.ctr.GetValue()
+					s.c.LeaveNoPark()
+				}
 				s.c.ParkUser(a, 1)
 				if d.cbErr || s.down {
 					return errCb
